@@ -116,7 +116,7 @@ def record_abs(tid, inst, cf, ops, unique, want_aux):
 
 
 # ------------------------------------------------------------------ instance sources
-def behaviours_from_tlc(chk, cfgname, seed, timeout=1200):
+def behaviours_from_tlc(chk, cfgname, seed, timeout=3600):
     r = run_tlc('LatticeMC', cfgname, workers=16, timeout=timeout, seed=seed)
     chk.tlc(r, f'LatticeMC {cfgname}: instances x histories enumerated for replay')
     # keep maximal histories only (a state prints the history that led to it; prefixes are other states)
@@ -230,6 +230,50 @@ def chain_instance(rng, allow):
     return inst, cf
 
 
+def planted_instance(rng, allow):
+    """a planted walk with decoys: one legal walk gets good emissions at every observation, and at every
+    observation a decoy state that shares a node with the walk's state is locally even better but leads nowhere
+    good.  The optimum is (almost always) the planted walk, and it is lost as soon as the search confuses,
+    merges or drops states."""
+    n = rng.randint(3, 5)
+    nodes = list(range(1, n + 1))
+    nbrs = {i: [] for i in nodes}
+    for i in nodes:
+        for j in nodes:
+            if i != j and rng.random() < 0.55:
+                nbrs[i].append(j)
+        if not nbrs[i]:
+            nbrs[i].append(rng.choice([j for j in nodes if j != i]))
+    if rng.random() < 0.5:
+        for i in nodes:
+            nbrs[i].append(i)
+    only_edges = True if 'nodes' not in allow else rng.random() < 0.35
+    edges = [(a, b) for a in nodes for b in nbrs[a] if a != b]
+    states = edges + ([] if only_edges else [(a,) for a in nodes])
+    T = rng.randint(3, 5)
+
+    def moves(s):
+        if only_edges:
+            return [s] + [e for e in edges if e[0] == s[1] and e[1] != s[1]]
+        if len(s) == 2:
+            return [s, (s[1],)]
+        return [(b,) for b in nbrs[s[0]]] + [(s[0], b) for b in nbrs[s[0]] if b != s[0]]
+    w = [rng.choice(edges if only_edges else [(a,) for a in nodes])]
+    while len(w) < T:
+        w.append(rng.choice(moves(w[-1])))
+    tab = {st: {'dE': [1] * T, 'lE': [-rng.choice([3, 4, 6]) for _ in range(T)], 'dN': [1] * T,
+                'lN': [-rng.choice([2, 3]) for _ in range(T)], 'ti': [1] * T} for st in states}
+    for t in range(T):
+        tab[w[t]]['lE'][t] = -1
+        dec = [s for s in states if s != w[t] and (s[0] == w[t][0] or s[-1] == w[t][-1])]
+        if dec:
+            tab[rng.choice(dec)]['lE'][t] = 0
+    inst = absm.Inst(nodes, nbrs, T, tab, {'move': rng.choice([0, -1]), 'moveNE': -1, 'back': -1})
+    cf = {'onlyEdges': only_edges, 'ne': False, 'W': 0, 'maxDist': INF, 'maxDistInit': INF, 'minlp': [-INF, 1],
+          'neLen': -1, 'neMax': 100, 'secondOrder': False}
+    return inst, cf
+
+
 def rand_ops(rng, T, cf, kinds):
     k0 = rng.randint(1, T) if 'extend' in kinds else T
     ops = [('match', k0)]
@@ -271,7 +315,7 @@ GALLOW = ('ne', 'W', 'nodes', 'cuts', 'goback')
 PLAN = {
     # pid: (MC config for the design-level check, EMIT config for replay (quick, thorough), random runs (quick, thorough),
     #       allowed features of random instances, op kinds, companion runs)
-    'C01': dict(mc='LatticeMC_C01', emit='LatticeMC_C01e', rnd=(400, 6000), allow=('nodes', 'cuts', 'linked'), kinds=(), aux=()),
+    'C01': dict(mc='LatticeMC_C01', emit='LatticeMC_C01e', rnd=(1600, 12000), allow=('nodes', 'cuts', 'linked'), kinds=(), aux=()),
     'C02': dict(mc='LatticeMC_C02', emit='LatticeMC_ALLe', rnd=(400, 6000), allow=('ne', 'W', 'nodes', 'cuts', 'linked', 'skip', 'second'), kinds=('extend', 'widen'), aux=()),
     'C03': dict(mc='LatticeMC_C03', emit='LatticeMC_ALLe', rnd=(400, 6000), allow=('ne', 'W', 'nodes', 'cuts', 'linked', 'skip', 'second'), kinds=('extend', 'widen'), aux=()),
     'C04': dict(mc='LatticeMC_C04', emit='LatticeMC_ALLe', rnd=(400, 6000), allow=('ne', 'W', 'nodes', 'cuts', 'linked', 'skip', 'second'), kinds=('extend', 'widen'), aux=()),
@@ -319,7 +363,7 @@ def run(chk):
     spec_hist = {}
     for inst, cf0, ops, hist in beh:
         tid += 1
-        cf0 = dict(cf0, labels=['id', 'zero', 'id', 'str', 'zero', 'neg'][tid % 6])
+        cf0 = dict(cf0, labels=['id', 'zero', 'z2', 'str', 'z3', 'neg', 'zero', 'z2'][tid % 8])
         runs.append(record_abs(tid, inst, cf0, ops, unique=(tid % 3 == 0), want_aux=plan['aux']))
     n_tlc = len(runs)
     for _ in range(plan['rnd'][thorough]):
@@ -332,12 +376,16 @@ def run(chk):
         if pid == 'C07' and not cf['W']:
             cf['W'] = rng.choice([1, 2, 3])
         ops = rand_ops(rng, inst.T, cf, plan['kinds'])
+        if pid == 'C01' and rng.random() < 0.6:
+            # planted walk with decoys (node-and-edge states in most of them; labels incl. a falsy one)
+            inst, cf = planted_instance(rng, ('nodes',))
+            ops = rand_ops(rng, inst.T, cf, plan['kinds'])
         if 'widen' in plan['kinds'] and 'W' in plan['allow'] and rng.random() < 0.35:
             # widening stress: start with width 1 on a dense graph and widen step by step
             inst, cf = rand_instance(rng, maxn=6, maxT=6, allow=tuple(a for a in plan['allow'] if a != 'cuts'))
             cf['W'] = 1
             ops = [('match', inst.T)] + [('widen', w) for w in rng.choice([[2, 3, 5], [2, 4], [3], [2, 3, 4, 6]])]
-        cf['labels'] = rng.choice(['id', 'zero', 'zero', 'str', 'neg'])
+        cf['labels'] = rng.choice(['id', 'zero', 'z2', 'z3', 'str', 'neg'] if pid != 'C01' else ['zero', 'z2', 'z3', 'zero', 'z2', 'z3', 'id', 'str'])
         if pid in ('C09', 'C03', 'C04', 'C05') and rng.random() < 0.3:
             cf['debug'] = True      # package logger at DEBUG: stopped candidates are materialised in the lattice
         tid += 1
@@ -444,6 +492,10 @@ def absm_dangling_geo(m):
                         out.append([str(x.key), str(p.key)])
                 if len(x.prev) > 1:
                     out.append([str(x.key), 'several-best-predecessors'])
+            for k, x in L.items():
+                want = (x.edge_m.l1, x.obs, x.obs_ne) if x.edge_m.l2 is None else (x.edge_m.l1, x.edge_m.l2, x.obs, x.obs_ne)
+                if tuple(k) != want:
+                    out.append([str(k), 'filed-under-another-key'])
     return out
 
 
